@@ -128,7 +128,7 @@ class Gyration(Unit):
     module = SHAPE
     qualname = "gyration_tensor"
     prop = "C17"
-    timeout = 20
+    timeout = 6
 
     def cases(self):
         return ["d=2", "d=3"]
@@ -304,7 +304,7 @@ class S2Integral(Unit):
     module = PAIR
     qualname = "s2_integral"
     prop = "C17"
-    timeout = 20
+    timeout = 6
 
     def cases(self):
         return ["d=2", "d=3"]
@@ -369,7 +369,300 @@ def _replay_s2_integral(case, clause, model, seed):
     return {"ran": True, "failed": False, "searched": 200}
 
 
-UNITS = [Gyration(), S2Integral()]
+# =====================================================================================================
+# trajectories: Snapshots with a symbolic number T of frames, every frame with the same symbolic particle number N
+
+
+RU = "PyMatterSim.reader.reader_utils"
+
+
+def make_snapshots(ctx, name, T, N, d, with_cell=False, with_types=False, K=None):
+    """Snapshots object whose frame list has symbolic length T; frame n is a SingleSnapshot with
+    positions[i, c] = <name>_pos(n, i, c), particle_type[i] = <name>_type(n, i), hmatrix[a, b] = <name>_H(n, a, b);
+    nparticle and boxlength are the same in every frame (the functions assert it)"""
+    import z3
+    from pyvc.interp import Ref, load_module, new_obj
+    from pyvc.state import Content, cur
+    I, Rr = z3.IntSort(), z3.RealSort()
+    posf = z3.Function(name + "_pos", I, I, I, Rr)
+    typf = z3.Function(name + "_type", I, I, I)
+    hf = z3.Function(name + "_H", I, I, I, Rr)
+    lf = z3.Function(name + "_L", I, Rr)
+    cls = load_module(RU).get_class("SingleSnapshot")
+    origin = ctx.state.origin
+    inputs = set()
+
+    def pos(n, i, c):
+        return sv.SV(posf(sv.znum(n), sv.znum(i), sv.znum(c)))
+
+    def typ(n, i):
+        return sv.SV(typf(sv.znum(n), sv.znum(i)))
+
+    def H(n, a, b):
+        return sv.SV(hf(sv.znum(n), sv.znum(a), sv.znum(b)))
+
+    def L(c):
+        return sv.SV(lf(sv.znum(c)))
+
+    def frame(n):
+        n = A.simp(n) if isinstance(n, sv.SV) else n
+        P = A.new_arr((N, d), lambda idx: pos(n, idx[0], idx[1]), "float", input=name + "_pos")
+        attrs = dict(timestep=sv.SV(z3.Function(name + "_ts", I, I)(sv.znum(n))), nparticle=N, positions=P,
+                     particle_type=A.new_arr((N,), lambda idx: typ(n, idx[0]), "int", input=name + "_type"),
+                     boxlength=A.new_arr((d,), lambda idx: L(idx[0]), "float", input=name + "_L"),
+                     boxbounds=None, realbounds=None,
+                     hmatrix=A.new_arr((d, d), lambda idx: H(n, idx[0], idx[1]), "float", input=name + "_H"))
+        for v in attrs.values():
+            if isinstance(v, A.Arr):
+                origin[v.sid] = f"field of input trajectory {name}"
+                inputs.add(v.sid)
+        return new_obj(cls, attrs, frozen=True)
+    lst = Ref(cur().alloc(Content("list", A.SeqVal(T, frame))), "list")
+    snaps = ctx.obj(RU, "Snapshots", dict(nsnapshots=T, snapshots=lst))
+    return snaps, dict(pos=pos, typ=typ, H=H, L=L, input_sids=inputs)
+
+
+def input_stores(out, inputs):
+    return [e for e in out.state.events if e[0] == "store" and e[1] in inputs]
+
+
+# =====================================================================================================
+# nematic order (2-D)
+
+
+def q_tensor(u, d, M=sv):
+    """Q = (d u u^T - I) / 2 for a director u (list of d components)"""
+    return [[M.div(M.sub(M.mul(d, M.mul(u[x], u[y])), 1 if x == y else 0), 2) for y in range(d)] for x in range(d)]
+
+
+def trace_sq(Q, d, M=sv):
+    acc = 0
+    for x in range(d):
+        for y in range(d):
+            acc = M.add(acc, M.mul(Q[x][y], Q[y][x]))
+    return acc
+
+
+def scalar_order(Q, d, M=sv):
+    """sqrt( d/(d-1) tr(Q Q) )"""
+    return M.sqrt(M.mul(M.div(d, d - 1), trace_sq(Q, d, M)))
+
+
+class Nematic(Unit):
+    module = NEM
+    qualname = "NematicOrder.tensor"
+    prop = "C17"
+    timeout = 8
+    solver_opts = {"unfold": False, "ext_limit": 120}      # no clause here needs to unfold a neighbour sum; extensionality instances stay on
+
+    def cases(self):
+        return [f"{nb}/{sc}" for nb in ("raw", "neighbour-averaged") for sc in ("trace", "eigenvalue")]
+
+    def _summaries(self, inp):
+        def spatial_average(interp, args, kwargs):
+            """callee contract of utils.coarse_graining.spatial_average (C16): out[n, i, ...] =
+            (in[n, i, ...] + sum_{k < cn(n,i)} in[n, nb(n,i,k), ...]) / (1 + cn(n,i)) for the neighbour list of the file"""
+            from pyvc.state import cur
+            a = kwargs.get("input_property", args[0] if args else None)
+            cur().require(isinstance(kwargs.get("neighborfile", args[1] if len(args) > 1 else ""), str), "call:spatial_average:pre")
+            inp["cg_called_with"] = (a, kwargs.get("Nmax", args[2] if len(args) > 2 else 30))
+            r = a.reader()
+            import z3
+            # the callee's result is an opaque array CG(n, i, x, y); its postcondition (the neighbour mean of the array
+            # handed over) is instantiated by the clauses at the frame / particle they talk about
+            cgf = z3.Function("CG", *([z3.IntSort()] * len(a.shape)), z3.RealSort())
+            raw_out = lambda idx: sv.SV(cgf(*[sv.znum(x) for x in idx]))
+            out = raw_out
+            if a.ndim == 4 and A.dim_conc(a.shape[2]) and a.shape[2] == a.shape[3]:
+                # derived from the callee contract: the neighbour mean of tensors that are symmetric in their last two
+                # axes is symmetric (entry (x,y) and (y,x) are the same function of equal inputs).  Symmetry of the input
+                # is checked at an arbitrary frame / particle (side obligation), then encoded structurally.
+                nn, jj = sv.fresh_int("sn"), sv.fresh_int("sj")
+                sym = sv.and_(*[sv.cmp("==", r((nn, jj, x, y)), r((nn, jj, y, x))) for x in range(a.shape[2]) for y in range(x + 1, a.shape[2])])
+                cur().require(sv.implies(sv.and_(sv.cmp(">=", nn, 0), sv.cmp("<", nn, a.shape[0]), sv.cmp(">=", jj, 0), sv.cmp("<", jj, a.shape[1])), sym),
+                              "call:spatial_average:input-symmetric")
+                out = lambda idx: raw_out(tuple(idx[:2]) + ((idx[2], idx[3]) if (sv.is_conc(idx[2]) and sv.is_conc(idx[3]) and idx[2] <= idx[3]) else (idx[3], idx[2])))
+            inp["cg_post"] = lambda idx: sv.cmp("==", out(idx), inp["cg_spec"](lambda j: r((idx[0], j) + tuple(idx[2:])), idx[0], idx[1]))
+            return A.new_arr(a.shape, out, "float")
+        return {"PyMatterSim.utils.coarse_graining.spatial_average": spatial_average}
+
+    def setup(self, ctx, case):
+        import z3
+        nbm, sc = case.split("/")
+        d = 2
+        T, N = ctx.int("T"), ctx.int("N")
+        ctx.assume(T >= 1)
+        ctx.assume(N >= 1)
+        snaps, acc = make_snapshots(ctx, "ori", T, N, d)
+        n0, i0 = ctx.int("n0"), ctx.int("i0")
+        cnf = z3.Function("nb_cn", z3.IntSort(), z3.IntSort(), z3.IntSort())
+        nbf = z3.Function("nb_id", z3.IntSort(), z3.IntSort(), z3.IntSort(), z3.IntSort())
+        cn = lambda n, i: sv.SV(cnf(sv.znum(n), sv.znum(i)))
+        # neighbour ids are valid particle indices (by construction: the raw id clamped into [0, N-1]), counts are >= 0
+        nb = lambda n, i, k: sv.maxv(0, sv.minv(sv.SV(nbf(sv.znum(n), sv.znum(i), sv.znum(k))), sv.sub(N, 1)))
+
+        def cg_spec(val_of, n, i):
+            return sv.div(sv.add(val_of(i), Sum(0, cn(n, i), lambda k: val_of(nb(n, i, k)))), sv.add(1, cn(n, i)))
+        inp = dict(d=d, T=T, N=N, acc=acc, n0=n0, i0=i0, nbm=nbm, sc=sc, cg_spec=cg_spec, cn=cn, nb=nb)
+        ctx.interp.summaries.update(self._summaries(inp))
+        ctx.assume(cn(n0, i0) >= 0)
+        obj = ctx.obj(NEM, "NematicOrder", dict(orientations=snaps, snapshots=None, QIJ=0))
+        inp["self"] = obj
+        kwargs = dict(ndim=2, neighborfile=("neighbors.dat" if nbm != "raw" else ""), Nmax=30, eigvals=(sc == "eigenvalue"), outputfile="out")
+        return [obj], kwargs, inp
+
+    def clause_names(self, case):
+        nbm, sc = case.split("/")
+        names = ["result-shape=[nsnapshots,nparticle]", "Q-tensor(stored,saved)=(d u u^T - I)/2" + ("-neighbour-averaged" if nbm != "raw" else ""),
+                 "frame:trajectory-not-written", "result-saved-to-file"]
+        names.append("scalar=sqrt(d/(d-1) tr Q^2)" if sc == "trace" else "scalar=2*largest-eigenvalue-of-Q")
+        if nbm == "raw":
+            names += ["lemma:Q-symmetric-traceless-for-unit-director", "lemma:sqrt(d/(d-1) tr Q^2)=2*largest-eigenvalue(2D)"]
+        else:
+            names += ["neighbour-average-called-on-raw-Q-tensor"]
+        return names
+
+    def Qspec(self, inp, n, i):
+        d, acc = inp["d"], inp["acc"]
+        raw = lambda j: q_tensor([acc["pos"](n, j, c) for c in range(d)], d)
+        if inp["nbm"] == "raw":
+            return raw(i)
+        return [[inp["cg_spec"](lambda j, x=x, y=y: raw(j)[x][y], n, i) for y in range(d)] for x in range(d)]
+
+    def ensures(self, ctx, case, inp, out):
+        from pyvc.libext.C17 import eig_values, vieta_facts
+        d, T, N, n0, i0 = inp["d"], inp["T"], inp["N"], inp["n0"], inp["i0"]
+        res = out.value
+        ok = isinstance(res, A.Arr) and res.ndim == 2
+        yield "result-shape=[nsnapshots,nparticle]", (sv.and_(sv.cmp("==", res.shape[0], T), sv.cmp("==", res.shape[1], N)) if ok else False)
+        if not ok:
+            return
+        inr = sv.and_(sv.cmp(">=", n0, 0), sv.cmp("<", n0, T), sv.cmp(">=", i0, 0), sv.cmp("<", i0, N))
+        Q = self.Qspec(inp, n0, i0)
+        RO = {"ring_only": True}
+        # the tensor kept in self.QIJ and written by np.save
+        stored = inp["self"].content.get("QIJ")
+        saved = [e for e in out.state.trace if e[0] == "np.save" and isinstance(e[1], str) and "QIJ" in e[1]]
+        conds = []
+        for Qarr in [stored] + [e[2] for e in saved]:
+            if not isinstance(Qarr, A.Arr) or Qarr.ndim != 4:
+                conds.append(False)
+                continue
+            conds.append(sv.and_(*[sv.cmp("==", Qarr.get((n0, i0, x, y)), Q[x][y]) for x in range(d) for y in range(d)]))
+        nm = [c for c in self.clause_names(case) if c.startswith("Q-tensor")][0]
+        post = [inp["cg_post"]((n0, i0, x, y)) for x in range(d) for y in range(d)] if inp.get("cg_post") else []
+        PO = {"assume": post, "solver_opts": {}}
+        yield nm, (sv.implies(inr, sv.and_(*conds)) if len(saved) == 1 else False), PO
+        yield "frame:trajectory-not-written", len(input_stores(out, inp["acc"]["input_sids"])) == 0
+        rs = [e for e in out.state.trace if e[0] == "np.save" and isinstance(e[1], str) and "QIJ" not in e[1]]
+        yield "result-saved-to-file", (sv.cmp("==", rs[0][2].get((n0, i0)), res.get((n0, i0))) if len(rs) == 1 else False), RO
+        got = res.get((n0, i0))
+        # the scalar clauses use the Q-tensor clause above (stored tensor = Q) as a hypothesis; the entries of Q are then
+        # generalised to fresh constants (universal generalisation keeps the query small)
+        # "for every matrix q: stored tensor = q  =>  result = f(q)"; with the clause above (stored tensor = Q) this is
+        # result = f(Q); stating it over fresh constants keeps the query small
+        q = [[sv.real(f"q_{x}{y}") for y in range(d)] for x in range(d)]
+        hyp = sv.and_(inr, *[sv.cmp("==", stored.get((n0, i0, x, y)), q[x][y]) for x in range(d) for y in range(d)]) if isinstance(stored, A.Arr) and stored.ndim == 4 else False
+        if inp["sc"] == "trace":
+            yield "scalar=sqrt(d/(d-1) tr Q^2)", sv.implies(hyp, sv.cmp("==", got, scalar_order(q, d)))
+        else:
+            lam = eig_values(q, d)
+            yield "scalar=2*largest-eigenvalue-of-Q", sv.implies(hyp, sv.cmp("==", got, sv.mul(2, sv.maxv(lam[0], lam[1]))))
+        if inp["nbm"] == "raw":
+            u = [inp["acc"]["pos"](n0, i0, c) for c in range(d)]
+            unit = sv.cmp("==", _sum([sv.mul(x, x) for x in u]), 1)
+            yield ("lemma:Q-symmetric-traceless-for-unit-director",
+                   sv.implies(unit, sv.and_(sv.cmp("==", Q[0][1], Q[1][0]), sv.cmp("==", sv.add(Q[0][0], Q[1][1]), 0))))
+            # for symmetric traceless 2x2 Q = [[a, b], [b, -a]] with eigenvalues l0, l1 (assumed eig contract: l0 + l1 = tr = 0,
+            # l0 l1 = det = -(a^2 + b^2)):  sqrt(2 tr Q^2) = 2 max(l0, l1)
+            a, b, l0, l1 = sv.real("qa"), sv.real("qb"), sv.real("l0"), sv.real("l1")
+            Qg = [[a, b], [b, sv.neg(a)]]
+            yield ("lemma:sqrt(d/(d-1) tr Q^2)=2*largest-eigenvalue(2D)",
+                   sv.implies(sv.and_(*vieta_facts(Qg, 2, [l0, l1])), sv.cmp("==", scalar_order(Qg, 2), sv.mul(2, sv.maxv(l0, l1)))))
+        else:
+            a, nmax = inp.get("cg_called_with", (None, None))
+            rawQ = q_tensor([inp["acc"]["pos"](n0, i0, c) for c in range(d)], d)
+            okc = isinstance(a, A.Arr) and a.ndim == 4
+            yield ("neighbour-average-called-on-raw-Q-tensor",
+                   (sv.implies(inr, sv.and_(*[sv.cmp("==", a.get((n0, i0, x, y)), rawQ[x][y]) for x in range(d) for y in range(d)])) if okc else False))
+
+    def replay(self, case, clause, model, seed):
+        return _replay_nematic(case, clause, model, seed)
+
+
+def _replay_nematic(case, clause, model, seed):
+    import importlib
+    import math
+    import os
+    import random
+    import tempfile
+    import numpy as np
+    nbm, sc = case.split("/")
+    mod = importlib.import_module(NEM)
+    ru = importlib.import_module(RU)
+    rng = random.Random(seed)
+    tmp = tempfile.mkdtemp(prefix="pyvc-c17-")
+    cwd = os.getcwd()
+    os.chdir(tmp)
+    try:
+        for k in range(60):
+            T = rng.choice([1, 2, 3])
+            N = rng.choice([1, 2, 3, 6, 11])
+            ang = [[rng.uniform(-math.pi, math.pi) for _ in range(N)] for _ in range(T)]
+            U = np.array([[[math.cos(a), math.sin(a)] for a in fr] for fr in ang])
+            if k % 7 == 0:
+                U[0, 0] = [1.0, 0.0]
+            frames = [ru.SingleSnapshot(timestep=10 * n, nparticle=N, particle_type=np.ones(N, dtype=int), positions=U[n].copy(),
+                                        boxlength=np.array([10.0, 10.0]), boxbounds=np.array([[0, 10.0], [0, 10.0]]), realbounds=None,
+                                        hmatrix=np.diag([10.0, 10.0])) for n in range(T)]
+            snaps = ru.Snapshots(nsnapshots=T, snapshots=frames)
+            nbl = [[sorted(rng.sample([j for j in range(N) if j != i], rng.randint(0, min(N - 1, 4)))) for i in range(N)] for _ in range(T)]
+            nfile = ""
+            if nbm != "raw":
+                nfile = os.path.join(tmp, "nb.dat")
+                with open(nfile, "w") as f:
+                    for n in range(T):
+                        f.write("id cn neighborlist\n")
+                        for i in range(N):
+                            f.write(" ".join(str(x) for x in [i + 1, len(nbl[n][i])] + [j + 1 for j in nbl[n][i]]) + "\n")
+            obj = mod.NematicOrder(snaps, None)
+            try:
+                got = obj.tensor(ndim=2, neighborfile=nfile, Nmax=30, eigvals=(sc == "eigenvalue"), outputfile=os.path.join(tmp, "o"))
+            except Exception as e:
+                return {"ran": True, "failed": True, "inputs": {"directors": U.tolist(), "neighbours": nbl if nbm != "raw" else None},
+                        "detail": f"raises {type(e).__name__}: {e}"}
+            got = np.asarray(got)
+            if got.shape != (T, N):
+                return {"ran": True, "failed": True, "inputs": {"directors": U.tolist()}, "detail": f"result shape {got.shape}, documented [{T}, {N}]"}
+            for n in range(T):
+                for i in range(N):
+                    def rawq(j):
+                        u = U[n, j]
+                        return (2 * np.outer(u, u) - np.eye(2)) / 2
+                    Q = rawq(i)
+                    if nbm != "raw":
+                        for j in nbl[n][i]:
+                            Q = Q + rawq(j)
+                        Q = Q / (1 + len(nbl[n][i]))
+                    Qs = np.asarray(obj.QIJ)[n, i]
+                    if not np.allclose(Qs, Q, rtol=1e-9, atol=1e-11):
+                        return {"ran": True, "failed": True, "searched": k + 1, "inputs": {"directors": U.tolist(), "neighbours": nbl if nbm != "raw" else None, "frame": n, "particle": i},
+                                "detail": f"stored Q tensor {Qs.tolist()} differs from (d u u^T - I)/2{' neighbour-averaged' if nbm != 'raw' else ''} = {Q.tolist()}"}
+                    want = math.sqrt(2.0 * float(np.trace(Q @ Q))) if sc == "trace" else 2.0 * float(max(np.linalg.eigvalsh((Q + Q.T) / 2)))
+                    if not abs(complex(got[n, i]) - want) <= 1e-8 * (1 + abs(want)):
+                        return {"ran": True, "failed": True, "searched": k + 1, "inputs": {"directors": U.tolist(), "neighbours": nbl if nbm != "raw" else None, "frame": n, "particle": i},
+                                "detail": f"scalar order {got[n, i]} differs from the definition {want}"}
+                    other = 2.0 * float(max(np.linalg.eigvalsh((Q + Q.T) / 2))) if sc == "trace" else math.sqrt(2.0 * float(np.trace(Q @ Q)))
+                    if not abs(other - want) <= 1e-8 * (1 + abs(want)):
+                        return {"ran": True, "failed": True, "inputs": {"directors": U.tolist()}, "detail": f"sqrt(2 tr Q^2) = {want} but 2 lambda_max = {other}"}
+    finally:
+        os.chdir(cwd)
+        import shutil
+        shutil.rmtree(tmp, ignore_errors=True)
+    return {"ran": True, "failed": False, "searched": 60}
+
+
+UNITS = [Gyration(), S2Integral(), Nematic()]
 
 def extra_checks(tier, seed, repo):
     from pyvc.vc import prove_lemmas
